@@ -17,6 +17,7 @@ mod cxxharness;
 mod c14;
 mod c07;
 mod c15x;
+mod c17x;
 mod backhalf;
 pub mod compile;
 
